@@ -875,9 +875,9 @@ def run(tier, seed, replay=None):
                     alts)
         geo_predicate(ctx, rec)
     return finish(ctx, aud,
-                  partial=['strehl_le_one for the tree is false (F17): negation witness strehl_code_exceeds_one, '
-                           'strehl_le_one_partial for pupils without blocked samples, strehl_le_one_spec for the '
-                           'specification',
+                  partial=['strehl_le_one: proved for the normalisation over the transmitted samples (strehl_le_one_spec), '
+                           'which is what the repaired tree (55d199a, F17) computes; the `_code` variant of the pinned '
+                           'tree is kept with its negation witness strehl_code_exceeds_one and strehl_le_one_partial',
                            'closed form (2/pi)(phi - cos phi sin phi) for the circular pupil: approximation statement, '
                            'numerical with bound 1.2/num_rays for grid >= 2 num_rays',
                            'the scatter of the ray list into the raster (ranks) and np.histogram binning are data '
